@@ -181,6 +181,12 @@ def tt_dimscheck(  # noqa: PLR0912
         raise ValueError(
             "Negative dims aren't allowed in pyttb, see exclude_dims argument instead"
         )
+    if np.any(dim_array >= N):
+        raise ValueError(f"Dims provided: {dim_array} must be in the range [0,{N})")
+    if np.unique(dim_array).size != dim_array.size or (
+        exclude_dims is not None and np.unique(exclude_dims).size != exclude_dims.size
+    ):
+        raise ValueError("Repeated dims aren't allowed")
 
     # Save dimensions of dims
     P = len(dim_array)
